@@ -211,6 +211,15 @@ Proof.
   pose proof (alloc_OK false SEG_SIZE s) as K. destruct (alloc false SEG_SIZE s) as [[id|] s1]; okleaf.
 Qed.
 
+Lemma fix_ambiguity_owned_m_OK m : OKP (fun r : bool * muri => fst r) (fix_ambiguity_owned_m csize m).
+Proof.
+  intros s. unfold fix_ambiguity_owned_m. destruct (match m_abs m with true => _ | false => _ end); [|intros _; apply clean_refl].
+  pose proof (alloc_OK false SEG_SIZE s) as K. destruct (TR_alloc false SEG_SIZE s) as [M _].
+  destruct (alloc false SEG_SIZE s) as [[id|] s1]; [|okleaf].
+  pose proof (alloc_OK false (tlen [46%N] * csize)%N s1) as K2.
+  destruct (alloc false (tlen [46%N] * csize)%N s1) as [[b|] s2]; okleaf.
+Qed.
+
 Lemma fix_empty_trail_m_clean m s : clean s (snd (fix_empty_trail_m m s)) /\ mono s (snd (fix_empty_trail_m m s)).
 Proof.
   destruct (fix_empty_trail_m_TR m s) as [M _]. split; [|exact M]. unfold fix_empty_trail_m.
@@ -273,12 +282,17 @@ Proof.
   set (relative := negb (is_some (t_val (m_scheme m))) && negb (m_abs m) && negb (m_host_set m)). clearbody relative.
   assert (Tail : forall m1 done1 owned, OKP (fun r : option (muri * N) * muri * N => is_some (fst (fst r))) (fun s1 =>
             let '(ok, m2, s2) := remove_dot_segments_m relative owned m1 s1 in
-            if ok then let '(m3, s3) := fix_empty_trail_m m2 s2 in (Some (m3, done1), m3, done1, s3)
+            if ok then
+              let '(ok', m2', s2') := fix_ambiguity_owned_m csize m2 s2 in
+              if ok' then let '(m3, s3) := fix_empty_trail_m m2' s2' in (Some (m3, done1), m3, done1, s3)
+              else (@None (muri * N), m2', done1, s2')
             else (@None (muri * N), m2, done1, s2))).
   { intros m1 done1 owned s1. pose proof (remove_dot_segments_m_OK relative owned m1 s1) as K.
     destruct (remove_dot_segments_m_TR relative owned m1 s1) as [M _].
     destruct (remove_dot_segments_m relative owned m1 s1) as [[[|] m2] s2]; [|okleaf].
-    destruct (fix_empty_trail_m_clean m2 s2) as [K2 M2]. destruct (fix_empty_trail_m m2 s2) as [m3 s3]. okleaf. }
+    pose proof (fix_ambiguity_owned_m_OK m2 s2) as Ka. destruct (fix_ambiguity_owned_m_TR csize m2 s2) as [Ma _].
+    destruct (fix_ambiguity_owned_m csize m2 s2) as [[[|] m2'] s2']; [|okleaf].
+    destruct (fix_empty_trail_m_clean m2' s2') as [K2 M2]. destruct (fix_empty_trail_m m2' s2') as [m3 s3]. okleaf. }
   destruct o; [apply Tail|].
   pose proof (norm_segs_malloc_OK (m_segs m) [] s) as K. destruct (norm_segs_malloc_TR csize (m_segs m) [] s) as [M _].
   destruct (norm_segs_malloc csize [] (m_segs m) s) as [[[|] segs] s1]; [|okleaf].
